@@ -34,9 +34,11 @@ class P:
 
     def data_len(self, ex, name='n', hi=None):
         """symbolic write size 1..=hi (default: at most two full segments)"""
-        n = sym_int(name, 64)
         mss = self.mtu.v - 50 if self.mtu.conc else 1450
         hi = hi if hi is not None else 2 * mss
+        if getattr(self, 'concrete_data', False):
+            return Int(64, min(hi, mss + 550))       # relational (shift) units: concrete write size, symbolic ISNs and shifts
+        n = sym_int(name, 64)
         ex.assume(ex.binop('Ge', n, U64(1), False))
         ex.assume(ex.binop('Le', n, U64(hi), False))
         return n
@@ -645,8 +647,10 @@ def run_shift_unit(ex, F, unit, res, tier='quick', deadline=None):
     def body(ex):
         k = {'A': sym_int('k1', 32), 'B': sym_int('k2', 32)}
         p1 = P(ex)
+        p1.concrete_data = True
         sim1 = forged_scenario(ex, F, unit, tier, holder, p=p1, key='sim1')
         p2 = P(ex, issA=ex.binop('Add', p1.issA, k['A'], False), issB=ex.binop('Add', p1.issB, k['B'], False))
+        p2.concrete_data = True
         holder['k'] = k
         # forged segment travels peer -> target: its seq lives in the peer's sequence space, its ack in the target's
         sim2 = forged_scenario(ex, F, unit, tier, holder, p=p2, shift=(k[peer], k[target]), key='sim2')
